@@ -817,6 +817,15 @@ fn every_way_of_growing(args: &Args, rep: &mut Report, rng: &mut Rng) {
                         rep.violate("C18", "C18/vec<u64>/moved-within-reserved-capacity/splice-same-length", format!("capacity {} len {}: replacing {} elements by {} moved the buffer {} capacity now {}", c0, v.len(), r, r, v.as_ptr() != p0, v.capacity()));
                     }
                 }
+                // giving elements away (split_off at 0, in the middle, at the end) leaves the reservation where it is
+                if v.as_ptr() == p0 && v.capacity() == c0 {
+                    let at = [0usize, v.len() / 2, v.len()][(next as usize) % 3];
+                    let tail = v.split_off(at);
+                    if v.as_ptr() != p0 || v.capacity() != c0 || v.len() != at {
+                        rep.violate("C18", "C18/vec<u64>/moved-within-reserved-capacity/split_off", format!("split_off({}) of a vector with capacity {}: buffer moved {} capacity now {}", at, c0, v.as_ptr() != p0, v.capacity()));
+                    }
+                    drop(tail);
+                }
                 rep.bump("c18.every_way_reserved_cases");
                 rep.evaluations += 1;
                 rep.distinct.insert(fnv(fnv(way as u64, cap as u64), 0xE1 + round as u64));
